@@ -594,7 +594,8 @@ Outcome run_case(const json& c, const std::string& prop) {
     }
     o.classes.push_back(style == 0       ? "style_all_in_one"
                             : style == 1 ? "style_per_edge"
-                                         : "style_per_class");
+                            : style == 2 ? "style_per_class"
+                                         : "style_redundant_mix");
     return o;
 }
 
